@@ -402,8 +402,9 @@ package queue
 //@   ensures [C01:rollback_unless_committed] (committed ==> durable == old(durable) && txOpen == old(txOpen) && txPending == old(txPending)) && (!committed ==> durable == old(durable) && txPending == 0 && !txOpen)
 
 //@ func (*SQLiteStore).enqueueWithLimit
-//@   requires s != nil && s.db != nil && !txOpen && txPending == 0
+//@   requires s != nil && s.db != nil && !txOpen && txPending == 0 && env.ID != ""
 //@   modifies durable, txOpen, txPending, signals
+//@   calls database/sql.(*Conn).ExecContext requires [C07:the_insert_carries_the_envelope_as_accepted] arg2 == "\nINSERT INTO queue_items (\n  id, route, target, state, received_at, attempt, next_run_at,\n  payload, headers_json, trace_json, schema_version, dead_reason,\n  lease_id, lease_until\n) VALUES (?, ?, ?, ?, ?, ?, ?, ?, ?, ?, ?, ?, NULL, NULL);\n" ==> nvarargs == 12 && vararg0 == env.ID && env.ID != "" && vararg1 == env.Route && vararg2 == env.Target && vararg3 == env.State && vararg5 == env.Attempt && vararg7 == env.Payload && vararg10 == env.SchemaVersion && env.Payload == old(env.Payload) && env.Route == old(env.Route) && env.Target == old(env.Target)
 //@   calls signal requires [C01:signal_only_after_commit] durable > old(durable) && !txOpen
 //@   ensures [C01:nil_implies_committed] result == nil ==> durable > old(durable)
 //@   ensures [C01:error_implies_nothing_committed] result != nil ==> durable == old(durable)
@@ -413,6 +414,8 @@ package queue
 //@   requires s != nil && s.db != nil && !txOpen && txPending == 0
 //@   label P after call maybePrune
 //@   modifies durable, txOpen, txPending, signals
+//@   calls database/sql.(*DB).ExecContext requires [C07:the_insert_carries_the_envelope_as_accepted] arg2 == "\nINSERT INTO queue_items (\n  id, route, target, state, received_at, attempt, next_run_at,\n  payload, headers_json, trace_json, schema_version, dead_reason,\n  lease_id, lease_until\n) VALUES (?, ?, ?, ?, ?, ?, ?, ?, ?, ?, ?, ?, NULL, NULL);\n" ==> nvarargs == 12 && vararg0 == env.ID && env.ID != "" && vararg1 == env.Route && vararg2 == env.Target && vararg3 == env.State && vararg5 == env.Attempt && vararg7 == env.Payload && vararg10 == env.SchemaVersion && env.Payload == old(env.Payload) && env.Route == old(env.Route) && env.Target == old(env.Target)
+//@   calls enqueueWithLimit requires [C07:the_limited_path_gets_the_envelope_as_accepted] arg1.Payload == old(env.Payload) && arg1.Route == old(env.Route) && arg1.Target == old(env.Target) && arg1.ID != ""
 //@   calls signal requires [C01:signal_only_after_commit] durable > at(P, durable)
 //@   ensures [C01:nil_implies_committed] result == nil ==> durable > old(durable)
 
